@@ -3,10 +3,7 @@ package c14
 import (
 	"encoding/json"
 	"fmt"
-	"os"
 	"runtime/debug"
-	"runtime/pprof"
-	"strconv"
 	"strings"
 	"sync/atomic"
 	"time"
@@ -166,16 +163,13 @@ func checkOrder(wk *worker) (ok bool, order []string) {
 }
 
 func run(r *engine.Run) {
-	if f := os.Getenv("C14_PROF"); f != "" {
-		fh, _ := os.Create(f)
-		_ = pprof.StartCPUProfile(fh)
-		defer pprof.StopCPUProfile()
-	}
 	r.Level = "exploration"
-	r.Bound = "3 validators (all voting, proposer any of them), <=3 bandtss members; union of cartesian products (see configs): " +
-		"fee pool uband in {0,1,2,3,99,10^6+1,10^18+7,..} x optional second denom; vote powers {1,3,10}^3 (quick) / {0,1,2,3,10}^3 and {1,333333333,10^12}^3 (thorough); " +
-		"all 2^3 oracle-active flag sets; no group / 1..3 members x all (active, has-nonce) flags; oracle and tss percentage in {0,1,33,50,99,100}; " +
-		"community tax in {0,0.02,0.5,1}(+0.333333333333333333 thorough); mint provision off (pool exact) and on"
+	r.Bound = "3 bonded validators, all voting, proposer any of them; current bandtss group absent or with 1..3 members; union of cartesian products listed in coverage.configs. " +
+		"quick: oracle{pool uband 0,1,2,3,99,10^6+1,10^18+7; powers {1,3,10}^3; all 2^3 oracle-active sets; 3 proposers; oracle pct 0,1,33,50,99,100; tax 0,0.02,0.5,1; mint off} + " +
+		"oracle-multidenom-mint{2 pools x second denom, mint off/on, same powers/flags/proposers} + " +
+		"tss{6 pools x optional second denom; no group and every (active,has-nonce) assignment for 1,2,3 members (85 shapes); tss pct 0,1,33,50,99,100; oracle pct 0,33; 4 taxes} + " +
+		"cross{2 pools x optional second denom x oracle pct 0,33,100 x tss pct 0,33,100 x mint off/on x all oracle-active sets x all shapes with <=2 members}. " +
+		"thorough: the same four products over larger alphabets (13 pool amounts up to 3*10^18, second denom 1,5,10^6+3, tax also 0.333333333333333333, powers {0,1,2,3,10}^3 and {1,333333333,10^12}^3, 3 proposers everywhere)"
 	r.Rule = "one evaluation = one tuple executed on the real whole-app BeginBlocker and on its module-by-module twin; tuples are enumerated by an odometer over each product, every index is executed; " +
 		"a tuple is non-trivial when the oracle share or the per-member tss payment is non-zero in some denom; distinct_nontrivial counts non-trivial tuples, a tuple lying in several products counted once"
 	r.Assumptions = []string{
@@ -206,9 +200,6 @@ func run(r *engine.Run) {
 		r.Notes = append(r.Notes, "begin blockers in application order: "+strings.Join(order, ","))
 	}
 	deadline := r.Deadline(5*time.Minute, 40*time.Minute)
-	if c, err := strconv.Atoi(os.Getenv("C14_CAP")); err == nil && c > 0 {
-		deadline = time.Now().Add(time.Duration(c) * time.Second)
-	}
 	tally := engine.NewTally()
 	sps := spaces(r.Quick())
 	var nontrivial int64
